@@ -29,6 +29,10 @@ class C03(SessionCheck):
         for i in range(2 if tier == 'quick' else 12):
             out.append({'kind': 'e2e', 'sc': {'transport': 'unix', 'profile': 'default', 'threads': 2 + i % 2, 'per_thread': 3, 'window': 3, 'notifs': 0,
                                               'seg': 'whole', 'reseed': 20240607 + i, 'seed': rng.randrange(1 << 30)}})
+        for i in range(2 if tier == 'quick' else 12):
+            # payloads that are themselves complete <rpc message-id="101"> elements (pasted from documentation), several outstanding
+            out.append({'kind': 'e2e', 'sc': {'transport': 'unix', 'profile': ['default', 'junos'][i % 2], 'threads': 3, 'per_thread': 2, 'window': 4, 'notifs': 0,
+                                              'seg': 'whole', 'pasted': True, 'seed': rng.randrange(1 << 30)}})
         return out
 
     def oracle_e2e(self, case, io):
